@@ -1475,6 +1475,107 @@ func C08(c *core.Ctx, replay string) {
 	// 4. binding self-test: a corrupted observation / a gateway that accepts a bad list
 	// must be noticed
 	mpSelfTest(c, ws[0].w, ws[0].t, plain)
+	if replay == "" {
+		mpConcurrentIsolation(c, ws[0].env)
+	}
+}
+
+// mpConcurrentIsolation: operations on DIFFERENT upload ids commute in S3GwMp (Abort(u)
+// and CreateMPU -> u' touch disjoint parts of `ups`), so whatever the order in which
+// overlapping requests take effect, the uploads afterwards are exactly the ones created
+// and not aborted. An upload with many parts is aborted while other clients initiate
+// uploads for the same key; every acknowledged upload must still be listed and usable.
+func mpConcurrentIsolation(c *core.Ctx, env *Env) {
+	cl := env.Root
+	b := "mpconc"
+	if r := CreateBucket(cl, b); !r.OK() {
+		c.Inconclusive("create bucket: %v", r)
+		return
+	}
+	rounds := c.Pick(2, 6)
+	nparts := c.Pick(1200, 4000)
+	vanished, created := 0, 0
+	var example string
+	for round := 0; round < rounds; round++ {
+		key := fmt.Sprintf("dir/shared-%d", round)
+		victim, r := CreateMPU(cl, b, key)
+		if !r.OK() {
+			c.Inconclusive("create upload: %v", r)
+			return
+		}
+		var wg sync.WaitGroup
+		for g := 0; g < 16; g++ {
+			wg.Add(1)
+			go func(g int) {
+				defer wg.Done()
+				for n := g + 1; n <= nparts; n += 16 {
+					UploadPart(cl, b, key, victim, n, []byte{byte(n)})
+				}
+			}(g)
+		}
+		wg.Wait()
+		done := make(chan *s3c.Resp, 1)
+		go func() { done <- AbortMPU(cl, b, key, victim) }()
+		// the other clients start once the abort is under way (its parts begin to disappear)
+		updir := filepath.Join(env.Cfg.Root, b, ".sgwtmp", "multipart", fmt.Sprintf("%x", sha256.Sum256([]byte(key))), victim)
+		for t0 := time.Now(); time.Since(t0) < 2*time.Second; {
+			ents, err := os.ReadDir(updir)
+			if err != nil || len(ents) < nparts {
+				break
+			}
+		}
+		var mu sync.Mutex
+		var ids []string
+		for g := 0; g < 8; g++ {
+			wg.Add(1)
+			go func() {
+				defer wg.Done()
+				for i := 0; i < 6; i++ {
+					if id, r := CreateMPU(cl, b, key); r.OK() && id != "" {
+						mu.Lock()
+						ids = append(ids, id)
+						mu.Unlock()
+					}
+					time.Sleep(2 * time.Millisecond)
+				}
+			}()
+		}
+		wg.Wait()
+		if ar := <-done; ar.Err != nil || ar.Status >= 300 {
+			c.Inconclusive("abort of the large upload: %v", ar)
+			return
+		}
+		listed := map[string]bool{}
+		ups, _, lr := mpListUploadsAll(cl, b, "", 1000)
+		if !lr.OK() {
+			c.Inconclusive("list uploads: %v", lr)
+			return
+		}
+		for _, u := range ups {
+			listed[u.UploadId] = true
+		}
+		for _, id := range ids {
+			created++
+			pr := UploadPart(cl, b, key, id, 1, []byte("x"))
+			if !listed[id] || !pr.OK() {
+				vanished++
+				if example == "" {
+					example = fmt.Sprintf("upload %s for %q: listed=%v, UploadPart -> %v", id, key, listed[id], pr)
+				}
+			}
+			AbortMPU(cl, b, key, id)
+		}
+		if listed[victim] {
+			c.Violation(core.FP("C08", "concurrent", "aborted-upload-still-listed"), "the aborted upload is still listed", map[string]any{"key": key})
+		}
+		c.Eval(fmt.Sprintf("conc-%d", round))
+	}
+	c.Extra["concurrent_isolation"] = map[string]int{"rounds": rounds, "parts_of_the_aborted_upload": nparts, "uploads_initiated_during_aborts": created, "vanished": vanished}
+	if vanished > 0 {
+		c.Violation(core.FP("C08", "concurrent", "upload-destroyed-by-abort-of-another-id"),
+			fmt.Sprintf("%d of %d uploads initiated (and acknowledged) while ANOTHER upload id of the same key was being aborted are gone: %s", vanished, created, example),
+			map[string]any{"rounds": rounds, "parts": nparts})
+	}
 }
 
 func mpBaseOnly(sizes map[string]int) map[string]int {
